@@ -186,13 +186,15 @@ package generic
 //@   props C07 C06 C10
 //@   use iter_over(fi)
 //@   requires elem: self.et != proto.LIST && self.et != proto.MAP
-//@   ensures hdr: fi.Err == nil ==> fi.k == 0 && fi.et == self.et && fi.size == self.size && (self.t == proto.LIST || self.t == proto.MAP)
+//@   ensures hdr: fi.Err == nil ==> fi.k == 0 && fi.et == self.et && fi.size == self.size && (self.t == proto.LIST || self.t == proto.MAP) && \
+//@       fi.ewt == proto.wtof(self.et) && (fi.isPacked <==> self.et != proto.STRING && self.et != proto.MESSAGE && self.et != proto.BYTE)
 
 //@ spec (Node).iterPairs
 //@   props C07 C06 C10
 //@   use iter_over(fi)
 //@   requires elem: self.et != proto.LIST && self.et != proto.MAP && self.kt != proto.LIST && self.kt != proto.MAP
-//@   ensures hdr: fi.Err == nil ==> fi.i == 0 && fi.vt == self.et && fi.kt == self.kt && fi.size == self.size && (self.t == proto.LIST || self.t == proto.MAP)
+//@   ensures hdr: fi.Err == nil ==> fi.i == 0 && fi.vt == self.et && fi.kt == self.kt && fi.size == self.size && (self.t == proto.LIST || self.t == proto.MAP) && \
+//@       fi.vwt == proto.wtof(self.et) && fi.kwt == proto.wtof(self.kt)
 
 //@ spec (structIterator).HasNext
 //@   props C07 C06
@@ -213,6 +215,7 @@ package generic
 //@   ensures ok: old(it.Err) == nil && it.Err == nil ==> tagPos < start && start <= end && end == it.p.Read && \
 //@       start == tagPos + old(protowire.vlen(it.p.Buf, it.p.Read)) && uint64(id) == old(protowire.vval(it.p.Buf, it.p.Read)) >> 3 && \
 //@       uint64(typ) == old(protowire.vval(it.p.Buf, it.p.Read)) & 7
+//@   ensures failed: old(it.Err) == nil && it.Err != nil ==> id == 0 && end == 0
 //@   ensures sticky: old(it.Err) != nil ==> it.Err != nil
 //@   modifies it.Err, it.p.Read
 
@@ -221,6 +224,7 @@ package generic
 //@   ensures mono: old(it.p.Read) <= it.p.Read
 //@   ensures ok: old(it.Err) == nil && it.Err == nil ==> old(it.p.Read) <= start && start <= end && end == it.p.Read && it.k == old(it.k) + 1
 //@   ensures packed: old(it.Err) == nil && it.Err == nil && it.isPacked ==> start == old(it.p.Read)
+//@   ensures adv: old(it.Err) == nil && it.Err == nil && (it.ewt == 0 || it.ewt == 1 || it.ewt == 2 || it.ewt == 5) ==> it.p.Read > old(it.p.Read)
 //@   ensures sticky: old(it.Err) != nil ==> it.Err != nil
 //@   modifies it.Err, it.p.Read, it.k
 
@@ -237,3 +241,86 @@ package generic
 //@   ensures ok: old(it.Err) == nil && it.Err == nil ==> old(it.p.Read) < keyStart && keyStart < start && start <= end && end == it.p.Read && it.i == old(it.i) + 1
 //@   ensures sticky: old(it.Err) != nil ==> it.Err != nil
 //@   modifies it.Err, it.p.Read, it.i
+
+// ---- accessors: a non-error result is a window inside the receiver's window -------------------------------
+//@ template accessor()
+//@   requires live: self.t != proto.ERROR
+//@   requires elem: self.et != proto.LIST && self.et != proto.MAP && self.kt != proto.LIST && self.kt != proto.MAP
+//@   ensures inside: v.t != proto.ERROR ==> samerg(v.v, self.v) && offset(v.v) >= offset(self.v) && offset(v.v) + v.l <= offset(self.v) + self.l && v.l >= 0
+//@   ensures valid: windowif(v.t != proto.ERROR, v.v, v.l)
+//@ end
+
+//@ spec (Node).Index
+//@   props C07 C06
+//@   use accessor()
+//@   ensures negative: idx < 0 ==> v.t == proto.ERROR
+//@   loop 1
+//@     invariant buf: samerg(it.p.Buf, self.v) && offset(it.p.Buf) == offset(self.v) && len(it.p.Buf) == self.l && 0 <= it.p.Read && it.p.Read <= len(it.p.Buf)
+//@     decreases idx - j
+
+//@ spec (Node).GetByStr
+//@   props C07 C06
+//@   use accessor()
+//@   loop 1
+//@     invariant buf: samerg(it.p.Buf, self.v) && offset(it.p.Buf) == offset(self.v) && len(it.p.Buf) == self.l && 0 <= it.p.Read && it.p.Read <= len(it.p.Buf)
+//@     decreases len(it.p.Buf) - it.p.Read
+
+//@ spec (Node).GetByInt
+//@   props C07 C06
+//@   use accessor()
+//@   loop 1
+//@     invariant buf: samerg(it.p.Buf, self.v) && offset(it.p.Buf) == offset(self.v) && len(it.p.Buf) == self.l && 0 <= it.p.Read && it.p.Read <= len(it.p.Buf)
+//@     decreases len(it.p.Buf) - it.p.Read
+
+//@ spec (Node).sliceNodeWithDesc
+//@   props C07 C06 C10
+//@   requires span: self.t != proto.ERROR && 0 <= s && s <= e && e <= self.l
+//@   requires schema: desc != nil && (desc.typ == proto.LIST ==> desc.elem != nil) && (desc.typ == proto.MAP ==> desc.elem != nil && desc.key != nil)
+//@   ensures win: r0.t == desc.typ && r0.l == e - s && samerg(r0.v, self.v) && offset(r0.v) == offset(self.v) + s
+//@   ensures valid: windowif(true, r0.v, r0.l)
+//@   ensures meta: (r0.t == proto.LIST ==> r0.et == desc.elem.typ) && (r0.t == proto.MAP ==> r0.et == desc.elem.typ && r0.kt == desc.key.typ)
+
+// Field: ASSUMED (callsite clauses): the schema is well-formed (a field descriptor has a type descriptor; LIST/MAP
+// descriptors have element/key descriptors that are not themselves LIST/MAP).
+//@ spec (Node).Field
+//@   props C07 C06
+//@   requires live: self.t != proto.ERROR && msgDesc != nil
+//@   callsite (*MessageDescriptor).ByNumber assumes schema: r0 != nil ==> r0.id >= 1      // field numbers of a schema are positive
+//@   callsite (*FieldDescriptor).Type assumes schema: r0 != nil && (r0.typ == proto.LIST ==> r0.elem != nil && r0.elem.typ != proto.LIST && r0.elem.typ != proto.MAP) && \
+//@       (r0.typ == proto.MAP ==> r0.elem != nil && r0.key != nil)
+//@   ensures inside: v.t != proto.ERROR ==> samerg(v.v, self.v) && offset(v.v) >= offset(self.v) && offset(v.v) + v.l <= offset(self.v) + self.l && v.l >= 0
+//@   ensures valid: windowif(v.t != proto.ERROR, v.v, v.l)
+//@   loop 1
+//@     invariant buf: samerg(it.p.Buf, self.v) && offset(it.p.Buf) == offset(self.v) && len(it.p.Buf) == self.l && 0 <= it.p.Read && it.p.Read <= len(it.p.Buf) && fd != nil
+//@     decreases len(it.p.Buf) - it.p.Read
+
+// ---- bulk lookups: no panic on any bytes, termination, and only the caller's path nodes are written --------
+//@ spec (Node).Fields
+//@   props C07 C06
+//@   requires live: self.t != proto.ERROR && msgDesc != nil && opts != nil
+//@   callsite (*FieldDescriptor).Type assumes schema: r0 != nil && (r0.typ == proto.LIST ==> r0.elem != nil && r0.elem.typ != proto.LIST && r0.elem.typ != proto.MAP) && \
+//@       (r0.typ == proto.MAP ==> r0.elem != nil && r0.key != nil)
+//@   modifies ids[0:len(ids)]
+//@   loop 2
+//@     invariant buf: samerg(it.p.Buf, self.v) && offset(it.p.Buf) == offset(self.v) && len(it.p.Buf) == self.l && 0 <= it.p.Read && it.p.Read <= len(it.p.Buf)
+//@     decreases len(it.p.Buf) - it.p.Read
+
+// (element type GROUP is deprecated and unsupported: its wire type 3 is skipped as zero bytes, so iteration would not progress)
+//@ spec (Node).Indexes
+//@   props C07 C06
+//@   requires live: self.t != proto.ERROR && opts != nil
+//@   requires elem: self.et != proto.LIST && self.et != proto.MAP && self.et != proto.GROUP
+//@   modifies ins[0:len(ins)]
+//@   loop 2
+//@     invariant buf: samerg(it.p.Buf, self.v) && offset(it.p.Buf) == offset(self.v) && len(it.p.Buf) == self.l && 0 <= it.p.Read && it.p.Read <= len(it.p.Buf) && \
+//@         it.ewt == proto.wtof(self.et) && 0 <= i && i <= it.p.Read
+//@     decreases len(it.p.Buf) - it.p.Read
+
+//@ spec (Node).Gets
+//@   props C07 C06
+//@   requires live: self.t != proto.ERROR && opts != nil
+//@   requires elem: self.et != proto.LIST && self.et != proto.MAP && self.kt != proto.LIST && self.kt != proto.MAP
+//@   modifies keys[0:len(keys)]
+//@   loop 2
+//@     invariant buf: samerg(it.p.Buf, self.v) && offset(it.p.Buf) == offset(self.v) && len(it.p.Buf) == self.l && 0 <= it.p.Read && it.p.Read <= len(it.p.Buf)
+//@     decreases len(it.p.Buf) - it.p.Read
